@@ -210,6 +210,46 @@ func runC17(r *rt.Run) {
 			}
 		}
 	}
+	if r.Thorough() {
+		// three special values per object: every triple of positions x every
+		// triple of floats, for the templates with at most 8 ordinates
+		type tj struct{ ti, a, b, c int }
+		var tjobs []tj
+		for ti, t := range c17Templates {
+			if t.nOrd > 8 {
+				continue
+			}
+			for a := 0; a < t.nOrd; a++ {
+				for b := a + 1; b < t.nOrd; b++ {
+					for c := b + 1; c < t.nOrd; c++ {
+						tjobs = append(tjobs, tj{ti, a, b, c})
+					}
+				}
+			}
+		}
+		r.Bounds["triple_position_jobs"] = len(tjobs)
+		r.ParFor(len(tjobs), func(k int, w *rt.Worker) {
+			jb := tjobs[k]
+			t := c17Templates[jb.ti]
+			for _, f1 := range c17Floats {
+				for _, f2 := range c17Floats {
+					for _, f3 := range c17Floats {
+						v := c17Base(t.nOrd)
+						v[jb.a], v[jb.b], v[jb.c] = f1, f2, f3
+						o := t.build(v)
+						w.States++
+						w.Evals++
+						w.Nontriv++
+						if what, exp, got := checkSerial(o, t.typ, t.depth); what != "" {
+							w.Fail("serial-"+what, func() (rt.Case, string, string) {
+								return rt.Case{Kind: "serial", Op: t.name, Nums: v, X: map[string]string{"what": what}}, exp, got
+							})
+						}
+					}
+				}
+			}
+		})
+	}
 	r.ParFor(len(jobs), func(k int, w *rt.Worker) {
 		jb := jobs[k]
 		t := c17Templates[jb.ti]
